@@ -169,6 +169,18 @@ func (ip *Inode) Resize(atxn *alloctxn.AllocTxn, sz uint64) bool {
 	var doshrink = false
 	oldsz := util.RoundUp(ip.Size, disk.BlockSize)
 	util.DPrintf(5, "Resize %v to sz %d\n", oldsz, newSz)
+	if sz < ip.Size && sz%disk.BlockSize != 0 {
+		// The block holding the new end of file stays; zero its tail so
+		// that growing the file again does not expose the old bytes.
+		blkno, _ := ip.bmap(atxn, sz/disk.BlockSize)
+		if blkno != common.NULLBNUM {
+			buf := atxn.ReadBlock(blkno)
+			for i := sz % disk.BlockSize; i < disk.BlockSize; i++ {
+				buf.Data[i] = 0
+			}
+			buf.SetDirty()
+		}
+	}
 	ip.Size = newSz
 	newSz = util.RoundUp(sz, disk.BlockSize)
 	if newSz < oldsz {
